@@ -158,7 +158,7 @@ pub fn run(run: &mut Run) {
     let ex = run.coverage.get("exhaustive").and_then(|v| v.as_bool()).unwrap_or(false);
 
     // two concurrent writers under the controlled scheduler
-    let setup = Setup { strategy: "newer", init: vec!["set k 1".into(), "set k 1".into()], session_init: vec![vec!["use-db t tok".to_string()], vec!["use-db t tok".to_string()], vec!["use-db t tok".to_string(), "watch k".to_string()]] };
+    let setup = Setup { strategy: "newer", init: vec!["set k 1".into(), "set k 1".into()], session_init: vec![vec!["use-db t tok".to_string()], vec!["use-db t tok".to_string()], vec!["use-db t tok".to_string(), "watch k".to_string()]], check_replica: false };
     let base = super::c02_ilv::base_version(&setup);
     let menu = |t: usize| vec![format!("set k p{}", t), format!("set-safe k {} s{}", base, t), format!("set-safe k {} o{}", base - 1, t), "increment k".to_string()];
     let mut configs = vec![];
